@@ -35,6 +35,7 @@ deriving DecidableEq, Repr, Inhabited
 
 inductive X
   | num (s : String) | id (s : String)
+  | nnum (s : String)                 -- signed literal of the PEG's `NumericLiteral` (IR only): the float `-s`, printed `-s`
   | paren (e : X)
   | neg (e : X)
   | notp (e : X)                      -- `NOT ( e )` — the only form of NOT the grammar accepts
@@ -50,6 +51,7 @@ mutual
 def flat : X → List XTok
   | .num s => [.num s]
   | .id s => [.id s]
+  | .nnum s => [.op .sub, .num s]
   | .paren e => .lp :: (flat e ++ [.rp])
   | .neg e => .op .sub :: flat e
   | .notp e => .knot :: .lp :: (flat e ++ [.rp])
@@ -111,6 +113,7 @@ def precAgree (P : XPrec) : Bool := allOps.all (opAgree P) && unaryAgree P
 def xlvl (P : XPrec) : X → Nat
   | .bin k _ _ => P.bp k
   | .neg _ => P.negLvl
+  | .nnum _ => P.negLvl                -- a signed literal is a unary-minus operand, not a primary
   | .ite _ _ _ => 0
   | _ => 100
 
@@ -162,6 +165,7 @@ mutual
 def gen (c : Cfg) (init : Bool) : X → List Tok
   | .num s => [.num s]
   | .id s => idToks s init
+  | .nnum s => [.op .sub, .num s]                   -- `str(-2.0)` as lexed
   | .paren e =>
     let g := gen c init e
     substToks (fun _ => g) (fnToks c "()" 1)
@@ -195,6 +199,7 @@ with every operand plugged in whole -/
 def trans (c : Cfg) (P : XPrec) (init : Bool) : X → Py
   | .num s => .num s
   | .id s => idPy s init
+  | .nnum s => .neg (.num s)
   | .paren e =>
     let t := trans c P init e
     subst (fun _ => t) (fnShape c "()" 1)
@@ -222,6 +227,7 @@ mutual
 def known (c : Cfg) : X → Bool
   | .num _ => true
   | .id _ => true
+  | .nnum _ => true
   | .paren e => known c e
   | .neg e => known c e
   | .notp e => known c e
@@ -240,6 +246,7 @@ mutual
 def XWL (P : XPrec) : X → Bool
   | .num _ => true
   | .id _ => true
+  | .nnum _ => decide (100 ≥ P.negDem)      -- exactly when `neg (num s)` is well-levelled
   | .paren e => XWL P e
   | .neg e => XWL P e && decide (xlvl P e ≥ P.negDem)
   | .notp e => XWL P e && decide (xlvl P e ≥ P.notDem)
@@ -250,6 +257,24 @@ def XWL (P : XPrec) : X → Bool
 def XWLL (P : XPrec) : List X → Bool
   | [] => true
   | e :: es => XWL P e && XWLL P es
+end
+
+mutual
+/-- IF-THEN-ELSE occurs in sentence positions only (whole equation, inside parentheses / `NOT( )`,
+function arguments, the three parts of another IF) — there it extends to the end of its bracket
+context, which is what makes the token sequence determine the emitted text. `sent` = the position
+of the node itself is a sentence position. -/
+def okAt (sent : Bool) : X → Bool
+  | .ite cnd a b => sent && okAt true cnd && okAt true a && okAt true b
+  | .paren e => okAt true e
+  | .notp e => okAt true e
+  | .neg e => okAt false e
+  | .bin _ l r => okAt false l && okAt false r
+  | .call _ args => okAtL args
+  | _ => true
+def okAtL : List X → Bool
+  | [] => true
+  | e :: es => okAt true e && okAtL es
 end
 
 /-- the compile step for one equation: `none` = an exception is raised -/
@@ -340,6 +365,14 @@ def validate (c : Cfg) (P : XPrec) (ts : List XTok) (ir : X) : Option X :=
       then some x else none
   | none => none
 
+/-- the per-program validation WITHOUT comparing emitted texts: the reference reading is well-levelled
+and prints back to the source tokens, the IR kept the token sequence and has its IFs in sentence
+positions.  `Props.C03.validate_of_flat` proves that this implies `validate`. -/
+def validateFlat (P : XPrec) (ts : List XTok) (ir : X) : Option X :=
+  match xparse P ts with
+  | some x => if decide (flat x = ts) && XWL P x && decide (flat ir = ts) && okAt true ir then some x else none
+  | none => none
+
 /-! ### S-expression of an XMILE tree (for comparison with the harness's own parser) -/
 
 def xopName : XOp → String
@@ -350,6 +383,7 @@ mutual
 def xsexp : X → String
   | .num s => s!"(num {s})"
   | .id s => s!"(id {s})"
+  | .nnum s => s!"(neg (num {s}))"
   | .paren e => xsexp e
   | .neg e => s!"(neg {xsexp e})"
   | .notp e => s!"(not {xsexp e})"
@@ -423,12 +457,15 @@ def xtokOfWord (w : String) : Option XTok :=
     | _ => none
 
 mutual
-/-- prefix words:  n <s> | i <s> | e (nothing) | p e | g e | t e | b <op> l r | q c a b | c <f> <n> a1 … an -/
+/-- prefix words:  n <s> (a leading `-` makes it the signed literal `nnum`) | i <s> | e (nothing) | p e | g e | t e | b <op> l r | q c a b | c <f> <n> a1 … an -/
 def readX : Nat → List String → Option (X × List String)
   | 0, _ => none
   | fuel + 1, ws =>
     match ws with
-    | "n" :: s :: r => some (.num s, r)
+    | "n" :: s :: r =>
+      match s.toList with
+      | '-' :: cs => some (.nnum (String.ofList cs), r)
+      | _ => some (.num s, r)
     | "i" :: s :: r => some (.id s, r)
     | "e" :: r => some (.nothing, r)
     | "p" :: r => match readX fuel r with
